@@ -18,6 +18,7 @@ import (
 	"net/url"
 	"reflect"
 	"sort"
+	"strconv"
 	"strings"
 	"sync"
 	"sync/atomic"
@@ -44,6 +45,7 @@ type c13Case struct {
 	Seed     int64       `json:"seed,omitempty"`
 	Redirect string      `json:"redirect,omitempty"` // url: "<status>;<kind>" - the backend answers the handshake with this redirect
 	Then     string      `json:"then,omitempty"`     // url: after the open, the backend drops the websocket ("drop-abrupt" | "drop-graceful") and the client keeps using the session
+	Decline  int         `json:"decline,omitempty"`  // url: the backend answers the first handshake of this open with this status and accepts a second one
 	BodyLen  int         `json:"body_len,omitempty"` // nonshim: generate a body of this many bytes from Seed instead of B64
 	Chunked  bool        `json:"chunked,omitempty"`  // nonshim: send the body with Transfer-Encoding: chunked
 	N        int         `json:"n,omitempty"`        // burst: concurrent goroutines
@@ -61,6 +63,7 @@ type c13Result struct {
 	Connected  bool     `json:"connected"`
 	Redirects  int      `json:"redirects"`       // handshakes the backend answered with a redirect during this case
 	Opens      int      `json:"opens"`           // burst: opens performed
+	Shakes     int      `json:"shakes"`          // handshake requests the backend received for this open
 	Later      []string `json:"later,omitempty"` // statuses of the calls made after the backend dropped the session
 	Reached    bool     `json:"reached"`         // nonshim: the wrapped handler saw the request
 	Violations []string `json:"violations,omitempty"`
@@ -216,6 +219,9 @@ func c13URL(c c13Case, h http.Handler, dials *c13Dials, b *shimBackend) c13Resul
 	if c.Redirect != "" {
 		hdr = append(hdr, [2]string{"X-Verif-Redirect", c.Redirect})
 	}
+	if c.Decline > 0 {
+		hdr = append(hdr, [2]string{"X-Verif-Decline-First", strconv.Itoa(c.Decline)})
+	}
 	redirBefore := atomic.LoadInt64(&b.redirects)
 	req, err := shimParse(shimRaw("POST", "/shim/open", c.Host, hdr, body))
 	if err != nil {
@@ -252,6 +258,29 @@ func c13URL(c c13Case, h http.Handler, dials *c13Dials, b *shimBackend) c13Resul
 	want, perr := c13Want(string(body))
 	res.ParseErr = perr != nil
 	res.Want = want
+	if c.Decline > 0 {
+		// every handshake request the backend received for this open is judged, also the ones it turned down
+		wantHost := b.addr
+		if c.Rewrite && c.Host != "" {
+			wantHost = c.Host
+		}
+		shakes := b.handshakes(c.ID)
+		res.Shakes = len(shakes)
+		for n, sh := range shakes {
+			if sh.Host != wantHost {
+				res.Violations = append(res.Violations, fmt.Sprintf("C13:host-altered:declined-first-handshake|open with body %s (rewriteHost=%v, client Host %q), backend answers the first handshake %d: handshake %d of %d carried Host %q, expected %q", show, c.Rewrite, c.Host, c.Decline, n+1, len(shakes), sh.Host, wantHost))
+			}
+			ok := false
+			for _, w := range want {
+				if w == sh.URI {
+					ok = true
+				}
+			}
+			if !ok {
+				res.Violations = append(res.Violations, fmt.Sprintf("C13:uri-altered:declined-first-handshake|open with body %s, backend answers the first handshake %d: handshake %d of %d asked for %q, path and query of the supplied URL are %q", show, c.Decline, n+1, len(shakes), sh.URI, want))
+			}
+		}
+	}
 	if a.Answered && a.Status == 200 {
 		var r shimOpenResp
 		json.Unmarshal(a.Body, &r)
